@@ -8,13 +8,11 @@ import HtmlVerif.Spec.Refs
 namespace HtmlVerif.Ops
 open HtmlVerif HtmlVerif.Wire
 
+/-- the statement itself, not the model's particular choice of references: every special character is written as
+    some character reference that decodes to it, every other character is unchanged (hence the whole decodes to the
+    original and no special character survives raw) -/
 def escHolds (attr : Bool) (s out : Str) : Bool :=
-  if attr then
-    out == s.flatMap escAttrChar && decodeCharRefs out == s && ampsOk attrRefs out
-      && !(out.any fun c => c == '<' || c == '>' || c == '"' || c == '\'' || c == '\r' || c == '\n')
-  else
-    out == s.flatMap escTextChar && decodeCharRefs out == s && ampsOk textRefs out
-      && !(out.any fun c => c == '<' || c == '>')
+  validEscape (if attr then attrSpecials else textSpecials) s out
 
 def holdsC02 : OpTable
   | "escape" => some do
